@@ -128,7 +128,7 @@ def rerank_predicate(res, tier, rnd):
         ctx = rnd.choice(CONTEXTS)
         other = rnd.choice([c for c in CONTEXTS if c != ctx])
         ws = rnd.sample(d["std"], min(len(d["std"]), rnd.randint(1, 3)))
-        f = [[ctx, w[1], rnd.randint(1, 6), 0] for w in ws]
+        f = [[ctx, w[1], rnd.randint(1, 6) if rnd.random() < 0.7 else rnd.randint(11, 45), 0] for w in ws]
         g = f + [[other, w[1], rnd.randint(1, 9), 0] for w in d["std"][:3]]
         for fr in ([], f, g):
             qs.append({"op": "kkc_query", "dict": d, "context": ctx, "freq": fr, "input": inp, "n": 1000000})
